@@ -593,7 +593,57 @@ func (x *Exec) applyIfaceContract(fr *Frame, st *State, itype types.Type, sig *t
 	return res
 }
 
+// funcValueCandidates: the package functions whose address is taken and whose signature matches.
+func (x *Exec) funcValueCandidates(sig *types.Signature) []*ssa.Function {
+	var out []*ssa.Function
+	for _, f := range x.eng.addrTaken {
+		if len(f.FreeVars) == 0 && types.Identical(f.Signature, sig) {
+			out = append(out, f)
+		}
+	}
+	return out
+}
+
 func (x *Exec) unknownFuncCall(fr *Frame, st *State, c *ssa.CallCommon, args []Value, rt types.Type, pos token.Pos) Value {
+	// a func value of a signature for which the package only ever takes the address of a few
+	// small functions: case split over them (closed world for unexported function types is an
+	// assumption listed in the evidence)
+	if cands := x.funcValueCandidates(c.Signature()); len(cands) >= 1 && len(cands) <= 4 && !x.inSpec {
+		all := true
+		for _, f := range cands {
+			if !x.eng.inlinable(f) || x.onStack(f) {
+				all = false
+			}
+		}
+		if all && len(x.inlineStack) < 3 {
+			x.vc.assumption("function values of type %s are one of the package functions whose address is taken", c.Signature().String())
+			var states []edge
+			var vals []Value
+			var conds []Term
+			choice := x.vc.Fresh("fnchoice", SInt)
+			for i, f := range cands {
+				g := Eq(choice, IntLit(int64(i)))
+				if i == len(cands)-1 {
+					g = Ge(choice, IntLit(int64(i)))
+				}
+				s2 := st.clone()
+				s2.pc = x.vc.Name(And(st.pc, g), "fv")
+				r := x.staticCall(fr, s2, fr.curBlk.Instrs[0], f, args, nil, rt, pos)
+				states = append(states, edge{nil, TTrue, s2})
+				vals = append(vals, r)
+				conds = append(conds, s2.pc)
+			}
+			x.vc.Assert(Ge(choice, IntLit(0)))
+			m := x.mergeStates(states)
+			pc := st.pc
+			*st = *m
+			st.pc = pc
+			if rt == nil {
+				return VStruct{}
+			}
+			return x.mergeValues(vals, conds, rt, "fv")
+		}
+	}
 	// call through a function value: havoc with the union of frames of address-taken functions
 	// of the same signature
 	fs := x.eng.funcValueFrame(c.Signature())
